@@ -180,12 +180,35 @@ def _kernel_instrs(p):
 
 
 def _single_kernel_form(p):
-    """The body is exactly `k = kernel(args[0..n-2]); yield k`."""
-    n = len(p.arg_widths)
-    return (len(p.instrs) == 1 and p.instrs[0].kind == "kernel" and p.instrs[0].refs == tuple(range(n - 1)) and p.yields == (n,))
+    """The body is exactly `k = kernel(block args[0..n-2]); yield k` (n block arguments; captured values unused)."""
+    n = p.n_block
+    return (len(p.instrs) == 1 and p.instrs[0].kind == "kernel" and p.instrs[0].refs == tuple(range(n - 1))
+            and p.yields == (len(p.arg_widths),))
 
 
 # ------------------------------------------------------------------------------------------ sub 1
+
+
+def _captured_values(mod, gen, r):
+    """The SSA values named by recipe['caps'], found by their place in the IR (never by name): function argument #j, block
+    argument #j+1 of the scf.for around the generic, result j of the tagged outside op."""
+    from xdsl.dialects import func, scf
+
+    caps = r.get("caps") or []
+    if not caps:
+        return ()
+    fn = next(o for o in mod.walk() if isinstance(o, func.FuncOp))
+    loop = gen.parent_op() if isinstance(gen.parent_op(), scf.ForOp) else None
+    tagged = [o for o in fn.body.block.ops if o.name == "test.op" and G.OUTS_TAG in o.attributes]
+    vals = []
+    for kind, j in caps:
+        if kind == "f":
+            vals.append(fn.body.block.args[j])
+        elif kind == "i":
+            vals.append(loop.body.block.args[j + 1])
+        else:
+            vals.append(tagged[0].results[j])
+    return tuple(vals)
 
 
 def prop_l2k(r):
@@ -194,8 +217,19 @@ def prop_l2k(r):
         raise Outside("argument list outside the stated domain")
     if not (1 <= len(r["ops"]) <= 6) or any(o[0] not in G.KINDS for o in r["ops"]):
         raise Outside("op list outside the stated domain")
+    caps = [list(c) for c in (r.get("caps") or [])]
+    env = r.get("env")
+    if caps or env is not None:
+        env = env or {}
+        lists = [env.get("fargs") or [], env.get("iters") or [], env.get("outs") or []]
+        if (len(lists[0]) > 6 or len(lists[1]) > 5 or len(lists[2]) > 4 or len(caps) > 6
+                or any(not isinstance(t, str) or not t[1:].isdigit() or G.width_of(t) not in G.WIDTHS for l in lists for t in l)
+                or any(len(c) != 2 or c[0] not in G.CAP_KINDS or G.cap_type(env, c) is None for c in caps)
+                or len({tuple(c) for c in caps}) != len(caps)):
+            raise Outside("surrounding / captured value list outside the stated domain")
+    capw = [G.width_of(G.cap_type(env, c)) for c in caps]
     try:
-        rp = E.program_from_recipe(argw, [[k, refs, G.width_of(t)] for k, refs, t in r["ops"]], r["yield"])
+        rp = E.program_from_recipe(argw, [[k, refs, G.width_of(t)] for k, refs, t in r["ops"]], r["yield"], capw)
     except E.IllTyped as e:
         raise Outside(f"ill-typed recipe: {e}")
     if rp.yield_widths() != (argw[-1],):
@@ -203,12 +237,14 @@ def prop_l2k(r):
 
     text = G.l2k_text(r)
     om, mod = _build(text, "convert-linalg-to-kernel")
-    before = E.program_from_block(_generics(mod)[0].body.block)
+    gen0 = _generics(mod)[0]
+    captured = _captured_values(mod, gen0, r)  # the same SSA values before and after the pass: further free inputs of the body
+    before = E.program_from_block(gen0.body.block, captured)
     if before.struct() != rp.struct():
         raise AssertionError("builder produced a body different from the recipe")  # harness error
 
     gen = _apply(om, mod, "linalg-to-kernel")
-    after = E.program_from_block(gen.body.block)
+    after = E.program_from_block(gen.body.block, captured)
 
     kinds = before.kinds()
     has_kseq = any(len(argw) == n and kinds == seq for n, seq in G.KSEQ.values())
@@ -216,6 +252,18 @@ def prop_l2k(r):
            "widths:mixed" if len(set(argw)) > 1 else "widths:uniform", "kseq:yes" if has_kseq else "kseq:no"]
     if r.get("mode", "").startswith(("canonical", "near", "seq")):
         cls.append("aim:" + r["mode"].split(":")[1])
+    if env is not None:
+        used = sorted({caps[x - len(argw)][0] for i in before.instrs for x in i.refs if len(argw) <= x < len(argw) + len(caps)}
+                      | {caps[x - len(argw)][0] for x in before.yields if len(argw) <= x < len(argw) + len(caps)})
+        cls.append("captured:" + ("+".join(used) if used else "unused"))
+        cls.append("surrounding:" + ("loop" if env.get("iters") is not None else "function"))
+        # a captured value that sits, in its own block, at the same argument index and with the same type as a body argument
+        twins = [c for c, w in zip(caps, capw)
+                 if (bi := G.cap_block_index(c)) is not None and bi < len(argw) and argw[bi] == w]
+        if twins:
+            cls.append("captured:same-index-and-type-as-a-body-argument" + (":kseq" if has_kseq else ""))
+    else:
+        cls.append("captured:none")
 
     if after.struct() == before.struct():
         cls.append("outcome:unchanged")
@@ -237,6 +285,8 @@ def prop_l2k(r):
         form = "rewritten-to-other-body"
     sig = None
     detail = dict(before=text, after=C.to_text(mod)[:2500], kernel=kname)
+    if caps:
+        detail["inputs_are"] = [f"%a{i}" for i in range(len(argw))] + [f"%{k}{j} (captured)" for k, j in caps]
     try:
         E.typecheck(after)
     except E.KernelUndefined as e:
@@ -246,7 +296,7 @@ def prop_l2k(r):
         raise Violation("linalg-to-kernel:ill-typed-body-after-pass", dict(detail, problem=str(e)))
     evals = 1
     if sig is None:
-        vectors = _vectors(argw, r)
+        vectors = _vectors(argw + capw, r)  # captured values are inputs like the block arguments
         evals = len(vectors)
         d = _first_diff(before, after, vectors)
         if d is not None:
@@ -471,6 +521,175 @@ def prop_dispatch(r):
     return Info(nontrivial=True, classes=tuple(cls), sample=f"{b['kernel']} {b['types']} -> {call}")
 
 
+# ------------------------------------------------------------------------------------------ sub 5
+
+# convert-kernel-to-linalg on the kernel.rescale that convert-tosa-to-kernel produced: "documented" = only for (i32) -> i8, the
+# domain the rescale sub states for the limited lowering; "all" = for every in/out type pair the first pass accepts (see the
+# report of this sub: on the unchanged tree LowerRescale has no type guard, (i8) -> x raises and (i32) -> i32 is truncated to i8;
+# set to "all" together with the proposed repair or the known-finding entries).
+TOSA_EXPAND_DOMAIN = "documented"
+SIG_TOSA_EXPAND_RAISES = "tosa-chain:expansion:input-narrower-than-i32:raises"
+SIG_TOSA_EXPAND_TRUNC = "tosa-chain:expansion:result-wider-than-i8:result-truncated-to-i8"
+
+
+def _tosa_reference(r):
+    """tosa.rescale followed by the optional tosa.clamp, with the documented limited formula for the rescale: the result is
+    limited to the range of the output type, then to the clamp bounds."""
+    lo, hi = G.int_range(r["out_ty"])
+    if r["clamp"] is not None:
+        lo, hi = max(lo, r["clamp"][0]), min(hi, r["clamp"][1])
+    in_w, out_w = G.width_of(r["in_ty"]), G.width_of(r["out_ty"])
+    f = lambda x: E.rescale_reference(x, r["zp_in"], r["zp_out"], r["mult"][0], r["shift"][0], lo, hi, in_w, out_w)  # noqa: E731
+    return f, lo, hi
+
+
+def prop_tosa(r):
+    if r["in_ty"] not in ("i8", "i32") or r["out_ty"] not in ("i8", "i32"):
+        raise Outside("element types outside i8/i32")
+    if r["consumer"] not in ("none", "clamp", "clamp+use") or r["shape"] not in G.TOSA_SHAPES or r["zp_ty"] not in ("i32", "native") \
+            or r["shift_ty"] not in ("i8", "i32"):
+        raise Outside("recipe shape")
+    if len(r["mult"]) != 1 or len(r["shift"]) != 1:
+        raise Outside("per-tensor parameters only (one multiplier, one shift)")
+    if not (0 <= r["shift"][0] < 64):
+        raise Outside("shift outside 0..63 (undefined for a 64-bit arithmetic shift)")
+    lo32, hi32 = G.I32
+    if not (lo32 <= r["mult"][0] <= hi32):
+        raise Outside("multiplier does not fit i32")
+    for key, t in (("zp_in", r["in_ty"]), ("zp_out", r["out_ty"])):
+        a, b = G.int_range(t if r["zp_ty"] == "native" else "i32")
+        if not (a <= r[key] <= b):
+            raise Outside("zero point does not fit its tensor type")
+    if (r["consumer"] == "none") != (r["clamp"] is None):
+        raise Outside("clamp bounds without clamp (or the reverse)")
+    if r["clamp"] is not None:
+        a, b = G.int_range(r["out_ty"])
+        if not (a <= r["clamp"][0] <= r["clamp"][1] <= b):
+            raise Outside("clamp bounds: min > max or outside the element type")
+    in_w, out_w = G.width_of(r["in_ty"]), G.width_of(r["out_ty"])
+
+    om = _om("convert-tosa-to-kernel")
+    mod = G.tosa_module(r)
+    mod.verify()  # a failure here is a harness error
+    text = C.to_text(mod)
+    final = next(o for o in mod.walk() if o.name == "test.op" and "final_user" in o.attributes)
+    cls = [f"types:({r['in_ty']})->{r['out_ty']}", "consumer:" + r["consumer"], "shape:" + r["shape"], "zp:" + r["zp_ty"],
+           "double_round" if r["dr"] else "single_round"]
+    if r["clamp"] is not None:
+        cls.append("clamp:full-range" if tuple(r["clamp"]) == G.int_range(r["out_ty"]) else "clamp:inside")
+    try:
+        _run_pipeline(om, mod)
+    except _PassTimeout:
+        raise Violation("tosa-to-kernel:pass-did-not-terminate", dict(watchdog_seconds=WATCHDOG_S))
+    except Exception as e:
+        raise Violation(f"tosa-to-kernel:raises:{type(e).__name__}", dict(error=repr(e)[:400], ir=text))
+    try:
+        mod.verify()
+    except Exception as e:
+        raise Violation("tosa-to-kernel:invalid-ir-after-pass", dict(error=repr(e)[:400], before=text, after=C.to_text(mod)[:3000]))
+    gens = _generics(mod)
+    left = [o.name for o in mod.walk() if o.name in ("tosa.rescale", "tosa.clamp")]
+    if not gens:
+        if "tosa.rescale" not in left:
+            raise Violation("tosa-to-kernel:rescale-removed-without-replacement", dict(before=text, after=C.to_text(mod)[:3000]))
+        cls.append("outcome:not-rewritten")
+        return Info(nontrivial=False, classes=tuple(cls))
+    after1 = C.to_text(mod)
+    detail = dict(before=text, after=after1[:3000])
+    body = list(gens[0].body.block.ops)
+    bargs = gens[0].body.block.args
+    if (len(gens) != 1 or left or len(body) != 2 or not isinstance(body[0], K.RescaleOp) or not isinstance(body[1], linalg.YieldOp)
+            or len(bargs) != 2 or body[0].input is not bargs[0] or list(body[1].operands) != [body[0].result]
+            or [E._width(a.type) for a in bargs] != [in_w, out_w] or E._width(body[0].result.type) != out_w):
+        raise Violation("tosa-to-kernel:result-is-not-one-generic-with-a-single-kernel-rescale", detail)
+    if final.operands[0].owner is not gens[0]:
+        raise Violation("tosa-to-kernel:user-does-not-read-the-new-generic", detail)
+    if r["consumer"] == "clamp+use":
+        # the unclamped rescale result has a second user: replacing rescale + clamp by one clamped kernel would change what it reads
+        raise Violation("tosa-to-kernel:rescale-with-a-second-user-rewritten", detail)
+    kop = body[0]
+    kmult, kshift = [int(v) for v in kop.multiplier.get_values()], [int(v) for v in kop.shift.get_values()]
+    if len(kmult) != 1 or len(kshift) != 1:
+        raise Violation("tosa-to-kernel:per-tensor-parameters-became-arrays", detail)
+    katt = dict(zp_in=kop.input_zp.value.data, zp_out=kop.output_zp.value.data, mult=kmult[0], shift=kshift[0],
+                min=kop.min_int.value.data, max=kop.max_int.value.data, dr=bool(kop.double_round.value.data))
+    detail["kernel_attributes"] = katt
+    if not (0 <= katt["shift"] < 64):
+        raise Violation("tosa-to-kernel:shift-changed", detail)
+
+    ref, lo, hi = _tosa_reference(r)
+    if in_w == 8:
+        xs = list(range(256))  # every input
+    else:
+        xs = _rescale_inputs(dict(xs=r.get("xs", []), vseed=r.get("vseed", 0), zp_in=r["zp_in"], zp_out=r["zp_out"], mult=r["mult"],
+                                  shift=r["shift"], min=lo, max=hi))
+    want = [ref(x) for x in xs]
+    hit = set()
+    for x, w in zip(xs, want):
+        s = E.signed(w, out_w)
+        hit.add("lo" if s == lo else "hi" if s == hi else "mid")
+    cls.append("outputs:" + "+".join(sorted(hit)))
+
+    # stage 1: the kernel op, read through the same formula with ITS attributes, against rescale [+ clamp]
+    if katt["dr"] != bool(r["dr"]):
+        raise Violation("tosa-to-kernel:double-round-flag-differs-from-rounding-mode", detail)
+    for x, w in zip(xs, want):
+        got = E.rescale_reference(x, katt["zp_in"], katt["zp_out"], katt["mult"], katt["shift"], katt["min"], katt["max"], in_w, out_w)
+        if got != w:
+            raise Violation("tosa-to-kernel:kernel-rescale-differs-from-tosa-rescale-and-clamp",
+                            dict(detail, x=E.signed(x, in_w), kernel=E.signed(got, out_w), tosa=E.signed(w, out_w)))
+    evals = len(xs)
+
+    # stage 2: the kernel op expanded into arithmetic
+    documented = (in_w, out_w) == (32, 8)
+    if not documented and TOSA_EXPAND_DOMAIN != "all":
+        cls.append("expansion:outside-documented-domain")
+        return Info(nontrivial=len(hit) >= 2, classes=tuple(cls), evals=evals)
+    problems = []
+    om2 = _om("convert-kernel-to-linalg")
+    try:
+        _run_pipeline(om2, mod)
+        mod.verify()
+    except _PassTimeout:
+        raise Violation("tosa-chain:kernel-to-linalg:pass-did-not-terminate", dict(watchdog_seconds=WATCHDOG_S))
+    except Exception as e:
+        if in_w < 32:
+            cls.append("expansion:raises")
+            return Info(nontrivial=len(hit) >= 2, classes=tuple(cls), evals=evals,
+                        known=[(SIG_TOSA_EXPAND_RAISES, dict(detail, error=repr(e)[:300]))])
+        raise Violation(f"tosa-chain:kernel-to-linalg:raises:{type(e).__name__}", dict(detail, error=repr(e)[:400]))
+    gens2 = _generics(mod)
+    if len(gens2) != 1:
+        raise Violation("tosa-chain:generic-op-count-changed", dict(detail, count=len(gens2)))
+    if any(isinstance(o, K.RescaleOp) for o in gens2[0].body.block.ops):
+        cls.append("expansion:not-expanded")
+        return Info(nontrivial=False, classes=tuple(cls), evals=evals)
+    expanded = C.to_text(mod)[:3000]
+    after = E.program_from_block(gens2[0].body.block)
+    try:
+        E.typecheck(after)
+    except E.IllTyped as e:
+        raise Violation("tosa-chain:ill-typed-expansion", dict(detail, expanded=expanded, problem=str(e)))
+    if after.arg_widths != (in_w, out_w):
+        raise Violation("tosa-chain:body-signature-changed", dict(detail, expanded=expanded))
+    if after.yield_widths() != (out_w,):
+        if out_w > 8 and after.yield_widths() == (8,):
+            cls.append("expansion:truncated-to-i8")
+            return Info(nontrivial=len(hit) >= 2, classes=tuple(cls), evals=evals,
+                        known=[(SIG_TOSA_EXPAND_TRUNC, dict(detail, expanded=expanded))])
+        raise Violation("tosa-chain:expansion-yields-another-type", dict(detail, expanded=expanded))
+    try:
+        outs = E.run_all(after, [(x, 0) for x in xs])
+    except E.Undefined as e:
+        raise Violation("tosa-chain:expansion-has-undefined-shift", dict(detail, expanded=expanded, problem=str(e)))
+    for x, o, w in zip(xs, outs, want):
+        if o[0] != w:
+            raise Violation("tosa-chain:expanded-arithmetic-differs-from-tosa-rescale-and-clamp",
+                            dict(detail, expanded=expanded, x=E.signed(x, in_w), expansion=E.signed(o[0], out_w), tosa=E.signed(w, out_w)))
+    cls.append("expansion:compared")
+    return Info(nontrivial=len(hit) >= 2, classes=tuple(cls), evals=evals + len(xs), known=problems)
+
+
 SUBS = [
     Sub("linalg_to_kernel", lambda tier: G.l2k_recipe(tier), prop_l2k,
         budget=dict(quick=6000, thorough=150000), exhaustive=G.l2k_exhaustive, floor=dict(quick=1000, thorough=20000),
@@ -484,4 +703,8 @@ SUBS = [
     Sub("dispatch", lambda tier: G.dispatch_recipe(tier), prop_dispatch,
         budget=dict(quick=1500, thorough=30000), exhaustive=G.dispatch_exhaustive, floor=dict(quick=30, thorough=400),
         nontrivial_rule="the pass set library_call and the named accelerator is declared and lists the kernel class with exactly the operand+result types"),
+    Sub("tosa_rescale", lambda tier: G.tosa_recipe(tier), prop_tosa,
+        budget=dict(quick=600, thorough=20000), exhaustive=G.tosa_exhaustive, floor=dict(quick=80, thorough=2500),
+        nontrivial_rule="tosa.rescale [+ tosa.clamp] became one kernel.rescale, the kernel (and for (i32)->i8 its expansion) was compared "
+                        "with the tosa meaning, and the tested inputs reach at least two of {lower bound, upper bound, in between}"),
 ]
